@@ -48,6 +48,11 @@ pub struct SimPlan {
     /// the canonical environment)
     #[serde(default)]
     pub env: Vec<(String, String)>,
+    /// every read of the clock advances simulated time by this much (0 in the
+    /// canonical environment): code that measures elapsed time between two
+    /// reads — a budget, a timeout — sees time pass without any I/O between
+    #[serde(default)]
+    pub clock_tick_ns: i64,
 }
 
 pub fn keys_from_hex(h: &str) -> [u8; 16] {
@@ -81,6 +86,7 @@ impl SimPlan {
             all_formats,
             realfs: false,
             env: vec![],
+            clock_tick_ns: 0,
         }
     }
 }
@@ -161,6 +167,7 @@ fn run_plan_inner(plan: &SimPlan) -> PlanResult {
     }
     let n = plan.threads.len();
     seams::set_sim_time(1_700_000_000, 0);
+    seams::set_clock_tick(plan.clock_tick_ns);
     let sched = Arc::new(Sched::new(n, plan.schedule.clone(), plan.sched_seed.map(Rng::new), plan.switch_16, plan.clock.clone()));
     let results: Arc<Mutex<Vec<JobRun>>> = Arc::new(Mutex::new(Vec::new()));
     let canaries: Arc<Mutex<Vec<(usize, String)>>> = Arc::new(Mutex::new(Vec::new()));
